@@ -318,6 +318,12 @@ theorem gen_permute_ctor_accepts_iff (p : IArr) :
     (∃ s, Permute.init p = .ok s) ↔ p.data.Perm ((List.range p.data.length).map Int.ofNat) := by
   rw [PermGenPf.gen_init_accepts_iff, ParamsPf.permuteRejects_iff]
 
+/-- rank 0 (the case `gen_permute_eq_model` excludes): an accepted 0-d permutation array stores empty index tuples and both methods are
+the identity (`x[()] = x`) — what the real class does for `Permute(jnp.array(0))`. -/
+theorem gen_permute_rank0 (p : IArr) (h0 : p.shape = []) {s : Permute} (h : Permute.init p = .ok s) (x : FArr ℝ) :
+    s.shape = [] ∧ s.transform x = x ∧ s.inverse x = x :=
+  PermGenPf.gen_permute_rank0 p h0 h x
+
 /-- non-vacuity: a 2 × 2 permutation array is accepted and inverted; a repeated entry is rejected -/
 theorem gen_permute_instance :
     (∃ s, Permute.init ⟨[2, 2], [2, 0, 3, 1]⟩ = .ok s ∧
